@@ -32,7 +32,6 @@ from insights.cleaner import Cleaner, DEFAULT_OBFUSCATIONS
 from insights.cleaner.filters import AllowFilter
 
 NO_OBF = sorted(DEFAULT_OBFUSCATIONS)
-FINDING_NUL = "nul-byte-binary-file"
 FINDING_SPLIT = "host-content-resplit"
 # characters at which str.splitlines() breaks a line but grep (and the file) does not
 BREAKS = ["\r", "\x0b", "\x0c", "\x1c", "\x1d", "\x1e", "\x85", "\u2028", "\u2029"]
@@ -40,8 +39,7 @@ BREAKS = ["\r", "\x0b", "\x0c", "\x1c", "\x1d", "\x1e", "\x85", "\u2028", "\u202
 
 def classify(data, path):
     """which listed finding a failure on a malformed file is an instance of — a predicate on the INPUT"""
-    if b"\0" in data and path in ("host", "host-content"):
-        return FINDING_NUL
+    # (a NUL byte is no longer an excuse: fixed by dbbe51c, grep -a)
     if path == "host-content" and any(c in data.decode("utf-8", "ignore") for c in BREAKS):
         return FINDING_SPLIT
     return None
@@ -700,7 +698,8 @@ def run_direct_case(rng, lines, allow):
 
 
 def malformed_case(rig, rng):
-    """a byte stream that is not clean text: NUL, invalid UTF-8, exotic line breaks (oracle only)"""
+    """a byte stream that is not clean text: NUL, invalid UTF-8, exotic line breaks (oracle only; NUL
+    bytes are held to the normal oracle since fix dbbe51c)"""
     nl = rng.randint(1, 6)
     blines = [b"".join(rng.choice(BAD_TOKENS) for _ in range(rng.randint(0, 4))) for _ in range(nl)]
     data = b"".join(l + b"\n" for l in blines)
@@ -738,6 +737,18 @@ def run_malformed(rig, data, allow):
             out.append(("archive", bad, None))
     except Exception as e:      # the archive path must not blow up on odd bytes
         out.append(("archive", "archive-load raised %s: %s" % (type(e).__name__, e), None))
+    # cross-path: where both paths read the same lines (valid UTF-8, no character at which only
+    # splitlines() breaks) the host must store exactly what the archive path loads — NUL bytes included
+    try:
+        text = data.decode("utf-8")
+    except UnicodeDecodeError:
+        text = None
+    if text is not None and not any(c in text for c in BREAKS) and not any(p_ == "archive" for p_, _, _ in out):
+        if final != arch:
+            out.append(("host", "host (grep + allow-list) and archive (post-filter) contents differ: %r vs %r" % (final, arch), None))
+        want = [l for l in host_lines if any(k in l for k, _ in order)]
+        if stage != want:
+            out.append(("host-content", "host content %r is not the matching lines %r" % (stage, want), None))
     os.remove(os.path.join(rig.dir, fname))
     return out, stage, final
 
@@ -809,6 +820,9 @@ def _run(chk, rng, quick, n_hist, n_content, n_direct, n_bad, scratch, rig):
             chk.witnesses.append(c["file"])
             chk.case(("corpus", c["file"]), True)
             chk.extra.setdefault("finding_witness_host_content", {})[c["file"]] = {"content": stage, "written": final}
+            if "expect_host_content" in c and (stage != c["expect_host_content"] or final != c["expect_host_content"]):
+                chk.failure("%s: host content %r / written %r, expected %r" % (c["file"], stage, final, c["expect_host_content"]),
+                            {"kind": "malformed", "bytes": c["bytes"], "allow": c["allow"], "expect_host_content": c["expect_host_content"]})
             seen = set()
             for path, desc, fid in res:
                 if fid is not None and fid == c.get("finding"):
@@ -951,6 +965,8 @@ def replay(data):
                     if fid:
                         print("  (instance of the listed finding %s) %s" % (fid, d))
                 fails = [d for _, d, _ in res]
+                if "expect_host_content" in c and (stage != c["expect_host_content"] or final != c["expect_host_content"]):
+                    fails.append("host content / written content differ from the expected %r" % (c["expect_host_content"],))
             for f in fails:
                 print("ORACLE:", f)
                 bad = True
